@@ -151,6 +151,21 @@ class LifterModel(object):
             live_mem = any(b < 0xC0 for b in live)
             if modifs.get(mmx) and X.dis_mmx_modes(name, list(prefix), False, digit=True, row=getattr(self, '_cur_view', None) or row) == 'rejected':
                 return                  # _dis returns None for this (row, mandatory prefix) pair
+            opc_ = getattr(self, '_cur_view', None).opc if getattr(self, '_cur_view', None) is not None else row.opc
+            if not modifs.get(mmx):
+                # operand sizes of the two forms, from the size statements of the /digit branch of _dis
+                rs = X.dis_operand_sizes(name, modifs, dibs, opc_, afsk, False, opm)
+                ms = X.dis_operand_sizes(name, modifs, dibs, opc_, afsk, True, opm)
+                if 'never' in (rs, ms):
+                    raise AnalysisError('row %r: the /digit size statements of _dis reach NEVER' % (row,))
+                if rs == 'rejected':
+                    live_reg = []
+                S_reg = S if isinstance(rs, str) else rs[1]
+                S_mem = S if isinstance(ms, str) else ms[1]
+                if ms == 'rejected':
+                    live_mem = False
+            else:
+                S_reg = S_mem = S
             if modifs.get(mmx):
                 if live_reg:
                     r_ = X.dis_mmx_modes(name, list(prefix), False, digit=True, row=getattr(self, '_cur_view', None) or row)
@@ -160,11 +175,11 @@ class LifterModel(object):
             else:
                 if live_reg:
                     r0 = 3 if 3 in live_reg else live_reg[0]
-                    base.append(('rm=reg%d' % r0, [self.REG(r0, S)]))
-                    if S == afs.u08 and self.rich and 7 in live_reg:
-                        base.append(('rm=reg7', [self.REG(7, S)]))
+                    base.append(('rm=reg%d' % r0, [self.REG(r0, S_reg)]))
+                    if S_reg == afs.u08 and self.rich and 7 in live_reg:
+                        base.append(('rm=reg7', [self.REG(7, S_reg)]))
             if live_mem:
-                base.append(('rm=mem', [self.MEM(S)]))
+                base.append(('rm=mem', [self.MEM(S_mem)]))
         elif afsk == E['reg']:
             S = afs.u08 if modifs.get(w8) else opm
             live_r = sorted(b & 7 for b in (live if live is not None else range(256)))
@@ -285,65 +300,30 @@ class LifterModel(object):
             if not modr[afs.ad] and X.dis_rmr_reg_rejected(modifs, row.name):
                 continue                # memory-only instruction: _dis returns None for a register r/m
             mafs = {afs.ad: False, (1 + reg_cat): 1}
-            if modifs.get(w8):
-                modr[afs.size] = afs.u08
-                mafs[afs.size] = afs.u08
-            else:
-                modr[afs.size] = opm_
-                mafs[afs.size] = opm_
-            if modifs.get(se) is not None and not (E['imm'] in dibs or E['ims'] in dibs):
-                modr[afs.size] = [afs.u08, afs.u16][bool(modifs[se])]
-            if modifs.get(wd):
-                modr[afs.size] = afs.u16
-                mafs[afs.size] = afs.u16
-            if modifs.get(mmx):
-                modr[afs.size] = adm_
-                mafs[afs.size] = opm_
-            if modifs.get(sg):
-                mafs[afs.size] = afs.size_seg
-            if modr[afs.ad] and modifs.get(mmx):
-                sz = X.dis_mmx_memsize(row.name, list(prefix), modr[afs.size])
-                if sz == 'never':
-                    continue          # NEVER site of _dis (C10)
-                modr[afs.size] = sz
+            # operand sizes: the size statements of the reg,r/m branch of _dis, evaluated for this form
+            view = getattr(self, '_cur_view', None)
+            szs = X.dis_operand_sizes(row.name, modifs, dibs, view.opc if view is not None else row.opc, row.afs, bool(modr[afs.ad]), opm_, adm_,
+                                      list(prefix) if modifs.get(mmx) else ())
+            if szs in ('never', 'rejected'):
+                continue              # NEVER site (C10) / no instruction
+            mafs[afs.size], modr[afs.size] = szs
             yield tag, mafs, modr
 
     def _special(self, name, modifs, opmode, ops):
-        """special_opcodes(): renames and implicit operands."""
-        X, E, afs = self.X, self.X.env, self.X.afs
-        ops = [dict(a) for a in ops]
+        """special_opcodes(): renames and implicit operands -- the method body is evaluated (stringops.special); the cwde/cdq twin rows are
+        switched by _dis itself."""
+        from . import stringops as SO
+        X, afs = self.X, self.X.afs
         u16 = opmode == 'u16'
-        if name in ('xrstor', 'xsaveopt', 'clflush') and (not ops or not ops[0].get(afs.ad)):
-            name = {'xrstor': 'lfence', 'xsaveopt': 'mfence', 'clflush': 'sfence'}[name]
-            ops = []
-        if u16 and name == 'pushfd':
-            name = 'pushfw'
-        if u16 and name == 'popfd':
-            name = 'popfw'
         if u16 and name == 'cwde':
             name = 'cbw'       # _dis switches to the 0x66-prefixed twin row
         if u16 and name == 'cdq':
             name = 'cwd'
-
-        def smem(regname, seg, s):
-            return {afs.reg_dict[regname]: 1, afs.ad: s, afs.size: s, afs.segm: afs.reg_sg.index(seg)}
-        for stem, mk in (('lods', lambda s: [smem('esi', 'ds', s)]), ('stos', lambda s: [smem('edi', 'es', s)]),
-                         ('movs', lambda s: [smem('edi', 'es', s), smem('esi', 'ds', s)]),
-                         ('cmps', lambda s: [smem('edi', 'es', s), smem('esi', 'ds', s)]),
-                         ('scas', lambda s: [smem('edi', 'es', s)])):
-            if name.startswith(stem) and name != 'movsx' and not (stem == 'movs' and len(ops) != 0):
-                if name[-1] == 'b':
-                    s = afs.u08
-                elif u16:
-                    s = afs.u16
-                    name = name[:-1] + 'w'
-                else:
-                    s = afs.u32
-                ops = mk(s)
-        if modifs.get(E['sd']) is True:
-            for a in ops:
-                if a.get(afs.size) == afs.u32:
-                    a[afs.size] = afs.f32
+        name, ops, _ = SO.special(X, name, afs.u16 if u16 else afs.u32, [0x66] if u16 else [], modifs, ops)
+        ops = [dict(a) for a in ops]
+        for a in ops:
+            if a.get(afs.ad) is True:
+                a[afs.ad] = a[afs.size]
         return name, ops
 
     # ------------------------------------------------------------ running
